@@ -61,9 +61,11 @@ func markersDrive(args []string) {
 			}
 			rep.Guard("markers:panic", markersCase{"markers", s}, func() { judgeMarkers(rep, s, nil) })
 			if !tw.Full() && len(s) <= 60 {
-				rs := redact.RedactableString(s)
-				tw.Emit(map[string]interface{}{"k": "markers", "s": lib.B(s), "strip": lib.B(rs.StripMarkers()),
-					"redact": lib.B(rs.Redact()), "esc": lib.B(redact.EscapeMarkers(append([]byte(nil), s...))), "wf": lib.WellFormed(s)})
+				rep.Guard("markers:panic", markersCase{"markers", s}, func() {
+					rs := redact.RedactableString(s)
+					tw.Emit(map[string]interface{}{"k": "markers", "s": lib.B(s), "strip": lib.B(rs.StripMarkers()),
+						"redact": lib.B(rs.Redact()), "esc": lib.B(redact.EscapeMarkers(append([]byte(nil), s...))), "wf": lib.WellFormed(s)})
+				})
 			}
 		}
 	})
